@@ -94,7 +94,8 @@ BadWitnesses(c) ==
      ELSE w.oid # <<"-", 0>> /\
           ~(/\ w.oid \in RS
             /\ w.oid[1] = WitnessKind(m)
-            /\ Min(MetricOf(c.g, m, w.oid), CapOf(m, c.cap32, c.cap64)) = c.n[m])}
+            /\ \/ SizeClampedJ(c, RS) /\ m \in ViaSize
+               \/ Min(MetricOf(c.g, m, w.oid), CapOf(m, c.cap32, c.cap64)) = c.n[m])}
 BadDescriptions(c) ==
   {m \in WitnessMetrics :
      LET w == c.w[m] IN
